@@ -146,6 +146,13 @@ def install_main_env(ctx, eng, opts_holder):
         # product over sources small)
         return Outcome(ok(BoolV(v)), events=[Event("identity-check", [a, b], BoolV(v))])
     S(r"^(libfs::)?is_same_file$", s_same)
+    def s_lstat_main(eng, st, callee, args, dty):
+        p = pexpr(eng, st, args[0])
+        st.pc.append(z3.Implies(fs_atom("exists", p), fs_atom("lexists", p)))
+        m = OpaqueV("std::fs::Metadata", "lstat:" + repr(p), {})
+        return [Outcome(ok(m), [fs_atom("lexists", p)], events=[Event("Path::symlink_metadata", [p], "ok")]),
+                Outcome(err("std::io::Error"), [z3.Not(fs_atom("lexists", p))], events=[Event("Path::symlink_metadata", [p], "absent")])]
+    front(r"^(std::path::)?Path::symlink_metadata$", s_lstat_main)
     front(r"^(std::path::)?Path::exists$", s_probe("exists"))
     front(r"^(std::path::)?Path::is_dir$", s_probe("is_dir"))
 
@@ -243,12 +250,15 @@ def _reference_invalid(p, names, with_td, vals, sources, dest_expr, fsm, texteq)
             inv.append(z3.And(cond, text_eq(s, base)))
             inv.append(z3.And(cond, B("exists", base), alias_atom(s, base)))
             # a directory source cannot replace a non-directory at the path it maps to -- for each of several sources too
-            inv.append(z3.And(cond, B("is_dir", s), B("exists", base), z3.Not(B("is_dir", base))))
+            # ("exists": the entry itself, lstat -- a dangling link at that path is a non-directory in the way, too)
+            inv.append(z3.And(cond, B("is_dir", s), B("lexists", base), z3.Not(B("is_dir", base))))
     return inv
 
 
 def _fs_axioms(sources, dest_expr):
     ax = []
+    for e_ in [dest_expr] + [("join", dest_expr, ("last", s_)) for s_ in list(sources or [])] if dest_expr else []:
+        ax.append(z3.Implies(fs_atom("exists", e_), fs_atom("lexists", e_)))
     for s_ in list(sources or []):
         if dest_expr:
             for x in (dest_expr, ("join", dest_expr, ("last", s_))):
